@@ -98,3 +98,9 @@ claim("C18",
       "the real plugin is run over several rounds on enumerated + random pools with a recording evictor and every call is checked by TLC.",
       "Trusted: TLC, the package's test handle / fake NodeMetric lister / recording evictor. Single node pool, cpu+memory, integer-exact percent conversions, timeouts one hour away.",
       "DESIGN.md 5 C18")
+claim("C17",
+      "TLA+ spec MigrationJob (job / reservation / pod / clock / API-fault state; predicates G, Tm, Tt, Once; pure-function transcription of Reconcile/doMigrate's gate order): TLC exhaustive MC over all interleavings of Reconcile with environment events, restarts and write faults; TLC-generated (BFS + simulation) and online random schedules executed on the real Reconciler over a fault-injecting fake client, every step validated by TLC (trace validation)",
+      "TLC checks on the transcribed controller that every Evict happens with the reservation scheduled (or preemption completed) on a node different from the pod's and never while it is pending / unschedulable / expired / missing / bound to another pod, that terminal jobs stay terminal and trigger nothing, that a TTL abort deletes the reservation and that fault-free runs evict at most once, "
+      "for all environment / fault interleavings (1.5 M states); the real reconciler is driven through the same schedules (n-th write failing, fake clock, recording evictor, restarts) and each recorded call, stamped with the reservation and pod state read from the fake API server at that instant, is checked by TLC.",
+      "Trusted: TLC, controller-runtime fake client + interceptor, fake clock, recording evictor / reservation interpreter wrapper. One reservation-first job for a running pod; reads never stale; preemption is a fake plug-in.",
+      "DESIGN.md 5 C17")
